@@ -39,12 +39,16 @@ class C31(Check):
                 "C31_push_sorted_placement", "C31_push_sorted_sorted", "C31_chain_sorted_sorted",
                 "C31_chain_sorted_any", "C31_sort_sorted", "C31_sort_is_reversed_stable_sort",
                 "C31_sort_not_stable", "C31_ring_push_sorted", "C31_sorted_sequences",
-                "C31_sorted_pop_front_is_max", "C31_sort_direction_differs")
+                "C31_sorted_pop_front_is_max", "C31_sort_direction_differs",
+                "C31_locked_linearizable", "C31_locked_complete", "C31_locked_mutual_exclusion",
+                "C31_locked_conservation")
     comp = "listm"
     extract_file = "theories/Extract/Extract_ListM.v"
     extracted = ("listm",)
     harness_src = "harness/h_listm.c"
     link_parsec = False
+    harness_cflags = ("-DBUILDING_PARSEC",)
+    race = True
     level_text = ("Theorems over ALL lists and ALL operation sequences of the model (Gallina list of (id, priority) per "
                   "parsec_list_t, one free ring): every operation conserves the multiset of items (none lost, none duplicated); "
                   "push/pop front/back obey the deque laws and fifo order; push_sorted inserts without moving other items and, on "
@@ -57,23 +61,37 @@ class C31(Check):
                   "non-increasing (item placed BEFORE equals). Any sequence of order-preserving operations keeps both lists "
                   "and the ring sorted. The model is tied to the real inline code of list.h/list_item.h/dequeue.h/fifo.h by "
                   "differential runs of random operation sequences (all API variants) printing the whole list after every "
-                  "operation. Full at list level.")
+                  "operation. Concurrent use of the LOCKED entry points: atomic-step model (pre-lock code incl. the unlocked "
+                  "emptiness test of the pops / one lock attempt + critical section / unlock) for any number of threads, any "
+                  "programs and EVERY schedule: the log of linearisation points replayed sequentially gives the logged results "
+                  "and the list, per thread in program order (C31_locked_linearizable/_complete), mutual exclusion, conservation; "
+                  "tied to the real code by controlled-schedule runs (ucontext coroutines, interposed lock operations) compared "
+                  "with the extracted model, then forward/backward walk and pop_back drain. Full at list level; concurrency "
+                  "at critical-section granularity.")
     level_note = ("Trusted: Coq kernel, extraction, harness (walks list_next and list_prev and compares them) and driver. "
                   "Pointer-level well-formedness is observed by the harness, not proved. The locked entry points take the "
                   "list's atomic lock around the same code (push_front/push_back/chain_* prepare the item outside the lock "
-                  "and link inside): linearizability of the lock-protected sections is assumed, not proved; concurrency is "
-                  "not exercised here.")
+                  "and link inside). In the concurrent model a critical section is ONE atomic step (assumption on the lock, "
+                  "C33) and plain accesses belong to the step that contains them; SC memory. The race exploration (clang "
+                  "-fsanitize=thread + tsanrt.c: every plain access to the list head, lock and items yields) is search only. "
+                  "Histories containing a locked sort are checked for structure and conservation only: the tie order of sort is "
+                  "not part of the property, and at plain-access granularity parsec_list_sort empties the list while it sorts, "
+                  "so the unlocked emptiness test of a concurrent pop may answer NULL (no caller sorts a shared list).")
     technique = ("Coq proof (induction over lists / operation sequences; run-structured invariant for the bottom-up mergesort) "
-                 "+ differential run of the real inline list code against the extracted model after every operation")
+                 "+ differential run of the real inline list code against the extracted model after every operation "
+                 "+ invariant over all schedules for the locked operations, controlled-schedule differential runs (cosched, "
+                 "interpose.h), Wing-Gong style linearizability search on the observed histories, race exploration")
     rule = ("operation sequences (8-60 ops) over two lists and a free ring drawn from profiles: deque traffic, sorted-only "
             "traffic, sort of lists with lengths around powers of two, ring insertion, everything mixed (unsorted lists hit "
             "both scan directions of push_sorted), exhaustive small boxes for the pivot expression; priorities mostly in a "
             "range of 2-4 values (ties), sometimes negative or wide. Non-trivial = at least 3 operations and 2 items; "
-            "distinct = distinct case text")
+            "distinct = distinct case text. Concurrent cases: 1-4 threads x 1-6 locked operations (all list/dequeue/fifo/"
+            "try variants) on one list, schedules: directed (every thread stopped before its lock attempt, released in "
+            "every order), sequential, bursts, random; race exploration re-runs them with long bursty schedules")
     trusted = ("harness includes parsec_object.c/parsec_list.c/parsec_dequeue.c/parsec_fifo.c and the inline headers "
                "(no libparsec); a case that crashes or loops is abandoned through a signal handler and reported as such",)
-    assumptions = ("locked variants: the critical section guarded by parsec_list_lock is atomic (linearizability of "
-                   "lock-protected sections is assumed, the lock itself is property C33's business)",
+    assumptions = ("locked variants: the critical section guarded by parsec_list_lock is atomic and the lock is a correct "
+                   "mutual-exclusion lock (C33); sequentially consistent memory",
                    "priorities fit an int with |p| < 2^30 (the pivot expression of push_sorted cannot overflow); fewer "
                    "than 2^30 items in a list (int insize of the mergesort)",
                    "callers respect the documented preconditions: items are in no other list/ring, position/removed item "
@@ -230,10 +248,138 @@ class C31(Check):
         profiles = ["deque", "sorted", "sorted", "sort", "ring", "mixed", "mixed", "mixed"]
         for i in range(n):
             out.append(self._gen(r.fork(), profiles[i % len(profiles)]))
+        out += self._conc_directed()
+        cprof = ["append", "deque", "sorted", "mixed", "append", "deque"]
+        for i in range(1500 if self.tier == "quick" else 30000):
+            out.append(self._gen_conc(r.fork(), cprof[i % len(cprof)]))
+        return out
+
+    # ---- concurrent cases (locked entry points under a chosen schedule)
+    def _conc_directed(self):
+        """two or three threads using one entry point each, every thread stopped between its prelude
+        and its lock acquisition, then released in every order."""
+        out = []
+        import itertools
+        ops = ["pb l 0 %d 1", "pb d 0 %d 1", "pb f 0 %d 1", "pf l 0 %d 1", "pf d 0 %d 1", "cb l 0 %d 1 %d 0",
+               "cf l 0 %d 1 %d 0", "cb f 0 %d 1 %d 0", "ps l 0 %d 1", "cs l 0 %d 1 %d 2"]
+        def mk(tmpl, base):
+            return tmpl % tuple(base + k for k in range(tmpl.count("%d")))
+        for init in ("", "90 3", "90 3 91 2"):
+            for a, b in itertools.product(ops, ops):
+                for order in ((0, 1), (1, 0)):
+                    x, y = order
+                    sched = [0, 1] + [x] * 4 + [y] * 4
+                    out.append("conc I: %s / %s ; ob l 0 / %s ; of l 0 / S: %s" % (
+                        init, mk(a, 10), mk(b, 20), " ".join(map(str, sched))))
+            for a in ops[:5]:
+                for perm in itertools.permutations(range(3)):
+                    sched = [0, 1, 2] + [t for t in perm for _ in range(3)]
+                    out.append("conc I: %s / %s / %s / %s ; ob u 0 / S: %s" % (
+                        init, mk(a, 10), mk(a, 20), mk(a, 30), " ".join(map(str, sched))))
+        return out
+
+    def _gen_conc(self, r, profile):
+        nid = [0]
+        mode = r.pick([0, 1, 1, 2, 3])
+
+        def it():
+            nid[0] += 1
+            return "%d %d" % (nid[0], self._prio(r, mode))
+
+        def chain(lo, hi):
+            return " ".join(it() for _ in range(r.range(lo, hi)))
+
+        nt = r.pick([1, 2, 2, 2, 3, 3, 4])
+        ninit = r.range(0, 4)
+        ps = sorted([self._prio(r, mode) for _ in range(ninit)], reverse=True)
+        init = []
+        for p_ in ps:
+            nid[0] += 1
+            init.append("%d %d" % (nid[0], p_))
+        threads = []
+        total = 0
+        for _ in range(nt):
+            ops = []
+            for _ in range(r.pick([1, 2, 2, 3, 4, 6])):
+                k = r.below(12)
+                if profile == "append":
+                    if k < 6:
+                        ops.append("pb %s 0 %s" % (r.pick("ldf"), it()))
+                    elif k < 8:
+                        ops.append("cb %s 0 %s" % (r.pick("ldf"), chain(1, 3)))
+                    elif k < 10:
+                        ops.append("ob %s 0" % r.pick("lldtu"))
+                    else:
+                        ops.append(r.pick(["of l 0", "of f 0", "of v 0", "ie l 0"]))
+                elif profile == "sorted":
+                    if k < 5:
+                        ops.append("ps l 0 %s" % it())
+                    elif k < 7:
+                        ops.append("cs l 0 %s" % chain(0, 3))
+                    elif k < 10:
+                        ops.append("%s %s 0" % (r.pick(["of", "ob"]), r.pick("ldtu")))
+                    elif k < 11:
+                        ops.append("ie %s 0" % r.pick("ldf"))
+                    else:
+                        ops.append("un l 0")
+                else:
+                    if k < 2:
+                        ops.append("pf %s 0 %s" % (r.pick("ld"), it()))
+                    elif k < 4:
+                        ops.append("pb %s 0 %s" % (r.pick("ldf"), it()))
+                    elif k < 6:
+                        ops.append("of %s 0" % r.pick("ldftuv"))
+                    elif k < 8:
+                        ops.append("ob %s 0" % r.pick("ldtu"))
+                    elif k < 9:
+                        ops.append("%s %s 0 %s" % (r.pick(["cf", "cb"]), r.pick("ld"), chain(1, 3)))
+                    elif k < 10:
+                        ops.append("ie %s 0" % r.pick("ldf"))
+                    elif k < 11:
+                        ops.append("un l 0")
+                    elif profile == "mixed":
+                        ops.append(r.pick(["so l 0", "ps l 0 " + it(), "cs l 0 " + chain(0, 3)]))
+                    else:
+                        ops.append("pb l 0 " + it())
+            total += len(ops)
+            threads.append(" ; ".join(ops))
+        kind = r.below(6)
+        if kind == 0:
+            sched = []
+        elif kind == 1:    # everyone does its first step, then thread after thread
+            order = r.shuffle(list(range(nt)))
+            sched = list(range(nt)) + [t for t in order for _ in range(4 * total)]
+        elif kind == 2:    # bursts
+            sched = []
+            while len(sched) < 5 * total:
+                sched += [r.below(nt)] * r.range(1, 4)
+        else:
+            sched = [r.below(nt) for _ in range(r.range(1, 6 * total))]
+        return "conc I: %s / %s / S: %s" % (" ".join(init), " / ".join(threads), " ".join(map(str, sched)))
+
+    def race_cases(self, cases):
+        """the concurrent cases again, with long bursty schedules: in the race build every plain access to
+        the list head, the lock and the items is a scheduling point, so operations take many more steps"""
+        from vcheck import Rng
+        r = Rng(self.seed * 7919 + 31)
+        conc = [c for c in cases if c.startswith("conc ")]
+        keep = 1200 if self.tier == "quick" else 12000
+        out = []
+        for c in conc[::max(1, len(conc) // keep)][:keep]:
+            head = c.rsplit("/ S:", 1)[0]
+            nt = head.count("/")
+            sched = []
+            n = r.pick([40, 120, 400])
+            while len(sched) < n:
+                sched += [r.below(nt)] * r.pick([1, 1, 2, 3, 5, 9, 17])
+            out.append(head + "/ S: " + " ".join(map(str, sched)))
         return out
 
     def search_cases(self):
         out = self._boxes(True)
+        rc = self.rng.fork()
+        for i in range(3000):
+            out.append(self._gen_conc(rc.fork(), ["append", "deque", "sorted", "mixed"][i % 4]))
         # every sequence of up to 5 sorted insertions over 3 priorities, then drained from the front
         def seqs(n):
             if n == 0:
@@ -256,6 +402,8 @@ class C31(Check):
         return out
 
     def nontrivial_key(self, case):
+        if case.startswith("conc "):
+            return case if case.count("/") >= 3 else None
         ops = case.split(";")
         nitems = sum(max(0, (len(o.split()) - 1) // 2) for o in ops)
         return case if len(ops) >= 3 and nitems >= 2 else None
@@ -263,6 +411,10 @@ class C31(Check):
     def dist(self, cases):
         d = {}
         nops = 0
+        conc = [c for c in cases if c.startswith("conc ")]
+        cases = [c for c in cases if not c.startswith("conc ")]
+        d["concurrent_cases"] = len(conc)
+        d["concurrent_threads_max"] = max([c.count("/") - 1 for c in conc] or [0])
         for c in cases:
             for o in c.split(";"):
                 k = o.split()[0]
@@ -278,6 +430,8 @@ class C31(Check):
     # operation is the state the implementation itself showed after the previous ones.
     def _check(self, case, obs):
         """returns None or (tag, message)"""
+        if case.startswith("conc "):
+            return self._check_conc(case, obs)
         if obs.startswith("<"):
             return ("crash", "no observation from the implementation: " + obs[:80])
         ops = [o.split() for o in case.split(";")]
@@ -432,6 +586,136 @@ class C31(Check):
             if newr is not None:
                 ring = newr
         return None
+
+
+    # ---- concurrent cases: structure, conservation, and linearizability of the observed history
+    def _check_conc(self, case, obs):
+        if obs.startswith("<"):
+            return ("conc-crash", "no observation from the implementation: " + obs[:80], None)
+        secs = [x.strip() for x in case[5:].split("/")]
+        init = _pairs(secs[0].split()[1:])
+        progs = [[o.split() for o in sec.split(";")] for sec in secs[1:-1]]
+        osec = [x.strip() for x in obs.split(" / ")]
+        nt = len(progs)
+        if len(osec) != nt + 3:
+            return ("shape", "unexpected observation " + obs[:100], None)
+        lsec, dsec, ssec = osec[nt], osec[nt + 1], osec[nt + 2]
+        if "DEADLOCK" in ssec:
+            return ("conc-deadlock", "the threads did not finish (lock never released?): " + obs[:160], None)
+        if "LOCKED" in lsec:
+            return ("conc-lock", "the list lock is still held after all threads finished", None)
+        if "BROKEN" in lsec or "WILD" in lsec:
+            return ("conc-links", "after the concurrent phase the forward and backward walks of the list disagree "
+                                  "or do not close: " + lsec[:200], None)
+        if "BROKEN" in obs or "WILD" in obs or "CYCLE" in obs:
+            return ("conc-links", "broken ring or drain: " + obs[:200], None)
+        final = _items(lsec.split()[1])
+        drained = _items(dsec.split()[1])
+        if drained != final[::-1]:
+            return ("conc-drain", "draining with pop_back gives %s, the forward walk was %s" % (drained, final), None)
+        ops = []          # per thread: (name, variant, items, result, inv, res)
+        outs = []
+        ins = list(init)
+        for t in range(nt):
+            w = osec[t].split()[1:]
+            if len(w) != len(progs[t]):
+                return ("shape", "thread %d: %d results for %d operations" % (t, len(w), len(progs[t])), None)
+            th = []
+            for o, x in zip(progs[t], w):
+                if x == "?":
+                    return ("conc-deadlock", "an operation did not complete", None)
+                res, st = x.rsplit("@", 1)
+                a, b = st.split("-")
+                xs = _pairs(o[3:])
+                ins += xs
+                if o[0] in ("of", "ob") and res != "-":
+                    outs.append(_item(res))
+                if o[0] == "un":
+                    outs += _items(res[1:-1])
+                th.append((o[0], o[1], xs, res, int(a), int(b)))
+            ops.append(th)
+        if sorted(ins) != sorted(final + outs):
+            return ("conc-lost", "items lost or duplicated: given %s, list %s + returned %s" % (
+                sorted(ins), final, outs), None)
+        if any(o[0] == "so" for th in ops for o in th):
+            return None          # the tie order of sort is not part of the property: no sequential spec to search with
+        allops = [(t, i) for t in range(nt) for i in range(len(ops[t]))]
+
+        def overlaps(t, i):
+            a, b = ops[t][i][4], ops[t][i][5]
+            return any((u, j) != (t, i) and not (ops[u][j][5] < a or ops[u][j][4] > b) for (u, j) in allops)
+
+        class Unknown(Exception):
+            pass
+
+        def ins_sorted(l, x):
+            if not _desc(l):
+                raise Unknown()
+            k = 0
+            while k < len(l) and l[k][1] >= x[1]:
+                k += 1
+            return l[:k] + [x] + l[k:]
+
+        def apply(l, t, i):
+            name, v, xs, res, _, _ = ops[t][i]
+            l = list(l)
+            if name == "pf":
+                return [(xs + l, "-")]
+            if name == "pb":
+                return [(l + xs, "-")]
+            if name == "cf":
+                return [(xs + l, "-")]
+            if name == "cb":
+                return [(l + xs, "-")]
+            if name in ("of", "ob"):
+                out = []
+                if l:
+                    out.append((l[1:], "%d:%d" % l[0]) if name == "of" else (l[:-1], "%d:%d" % l[-1]))
+                    if v in "tuv" and overlaps(t, i):
+                        out.append((l, "-"))     # try_pop may find the lock busy
+                else:
+                    out.append((l, "-"))
+                return out
+            if name == "ps":
+                return [(ins_sorted(l, xs[0]), "-")]
+            if name == "cs":
+                for x in xs:
+                    l = ins_sorted(l, x)
+                return [(l, "-")]
+            if name == "ie":
+                return [(l, "1" if not l else "0")]
+            if name == "un":
+                return [([], "[" + (",".join("%d:%d" % e for e in l) if l else ".") + "]")]
+            raise Unknown()
+
+        seen = set()
+        todo = [(tuple([0] * nt), tuple(init))]
+        budget = 200000
+        try:
+            while todo:
+                idx, l = todo.pop()
+                if all(idx[t] == len(ops[t]) for t in range(nt)):
+                    if list(l) == final:
+                        return None
+                    continue
+                if (idx, l) in seen:
+                    continue
+                seen.add((idx, l))
+                budget -= 1
+                if budget < 0:
+                    return None
+                first_res = min(ops[t][idx[t]][5] for t in range(nt) if idx[t] < len(ops[t]))
+                for t in range(nt):
+                    i = idx[t]
+                    if i >= len(ops[t]) or ops[t][i][4] > first_res:
+                        continue
+                    for l2, r2 in apply(l, t, i):
+                        if r2 == ops[t][i][3]:
+                            todo.append((idx[:t] + (i + 1,) + idx[t + 1:], tuple(l2)))
+        except Unknown:
+            return None
+        return ("conc-lin", "no sequential order of the locked operations (respecting their real-time order) explains "
+                            "the returned values and the final list %s: %s" % (final, obs[:200]), None)
 
     def oracle(self, case, obs):
         try:
